@@ -41,7 +41,8 @@ SCEN = ["params_value", "params_vary", "params_minmax", "params_expr",
         "range_x", "method_kws", "prep_list", "prep_options",
         "prep_list_via_fit", "returned_params", "returned_params_unpassed",
         "prep_list_unpassed", "force_array", "rater_arrays", "model_args",
-        "rate_names_list", "rate_training_set_arrays"]
+        "rate_names_list", "rate_training_set_arrays",
+        "handed_out_preproc_attrs"]
 
 
 def shards(tier):
@@ -389,6 +390,45 @@ def scenario(rec, rng, cid):
                       "initial parameters handed out after the edit differ "
                       "between the twins", case)
         rec.evaluated(dg=(sc, what, kw, spec))
+    elif sc == "handed_out_preproc_attrs":
+        # objects handed out by the curve (idnt.preprocessing /
+        # idnt.preprocessing_options) are edited in place and the pipeline
+        # is requested again: the edit must be noticed and applied
+        a = gen.make_indentation(data, with_tip=False)
+        steps = ["compute_tip_position", "correct_tip_offset"]
+        opts = {"correct_tip_offset": {"method": "deviation_from_baseline"}}
+        g.call("apply_preprocessing", a.apply_preprocessing,
+               copy.deepcopy(steps), copy.deepcopy(opts))
+        which = int(rng.integers(3))
+        if which == 0:
+            a.preprocessing_options["correct_tip_offset"]["method"] = \
+                "fit_constant_line"
+        elif which == 1:
+            a.preprocessing.insert(1, "correct_force_offset")
+        else:
+            a.preprocessing.append("correct_force_offset")
+            a.preprocessing_options["correct_tip_offset"]["method"] = \
+                "frechet_direct_path"
+        s1 = copy.deepcopy(a.preprocessing)
+        o1 = copy.deepcopy(a.preprocessing_options)
+        case["edit"] = {"after": [s1, o1]}
+        how = int(rng.integers(3))
+        if how == 0:
+            a.apply_preprocessing()            # "use what the curve holds"
+        elif how == 1:
+            a.apply_preprocessing(a.preprocessing, a.preprocessing_options)
+        else:
+            a.apply_preprocessing(copy.deepcopy(s1), copy.deepcopy(o1))
+        c = gen.make_indentation(data, with_tip=False)
+        c.apply_preprocessing(copy.deepcopy(s1), copy.deepcopy(o1))
+        rec.event("twin states compared")
+        rec.check(c06.columns_fp(a) == c06.columns_fp(c),
+                  "change-not-noticed/%s" % sc,
+                  "after editing the handed-out preprocessing objects in "
+                  "place and requesting the pipeline again (variant %d), the "
+                  "columns differ from a fresh curve given %r / %r once"
+                  % (how, s1, o1), case)
+        rec.evaluated(dg=(sc, which, how, spec))
     elif sc in ("rate_names_list", "rate_training_set_arrays"):
         # rate_quality(names=list, training_set=(X, y)): in-place edits of
         # these objects between two calls must be noticed
